@@ -2,7 +2,7 @@
 // metadata, own index, own shards), the real leaf and intermediate task processors, the real task managers and the
 // real root search (query.MetricDataSearch). Only the transport is replaced: requests are handed to the target's
 // processor, responses are collected per receiver and delivered to its task manager in an order the harness picks.
-package main
+package qh
 
 import (
 	"context"
